@@ -107,8 +107,8 @@ func (v yVFS) ReadDirNames(dir string) ([]string, error) {
 type yKV struct{ in sorted.KeyValue }
 
 func (k yKV) Get(key string) (string, error) { yield(); defer yield(); return k.in.Get(key) }
-func (k yKV) Set(key, v string) error       { yield(); defer yield(); return k.in.Set(key, v) }
-func (k yKV) Delete(key string) error       { yield(); defer yield(); return k.in.Delete(key) }
+func (k yKV) Set(key, v string) error        { yield(); defer yield(); return k.in.Set(key, v) }
+func (k yKV) Delete(key string) error        { yield(); defer yield(); return k.in.Delete(key) }
 func (k yKV) BeginBatch() sorted.BatchMutation {
 	return k.in.BeginBatch()
 }
